@@ -5,7 +5,8 @@
    whole files is exercised by the correspondence run: every field of every generated file.)
    Statements only; proofs in StatusFacts.v. *)
 From Coq Require Import String.
-From Sbdf Require Import File PrimFacts VaFacts SliceFacts StatusFacts.
+From Sbdf Require Import File PrimFacts VaFacts SliceFacts StatusFacts LeafTie.
+From Sbdf.Gen Require Leaf.
 From Sbdf.Gen Require Facts.
 Local Open Scope Z_scope.
 
@@ -46,6 +47,14 @@ Theorem C09_unknown_type_id : forall swp cap ty count packed s, 0 <= count -> is
   read_objects swp cap ty count packed s = Err SBDF_ERROR_UNKNOWN_TYPEID.
 Proof. intros. apply read_objects_unknown_type; try assumption. now apply usize_unknown. Qed.
 Print Assumptions C09_unknown_type_id.
+
+(* the table of known type ids is the one in the source (sbdf_get_unpacked_size, sbdf_ti_is_arr as
+   translated from /repo/src/internals.c on this run), for every integer id *)
+Theorem C09_type_table_is_the_source : forall id,
+  Leaf.gen_sbdf_get_unpacked_size id = usize id /\ Leaf.gen_sbdf_get_packed_size id = usize id /\
+  Leaf.gen_sbdf_ti_is_arr id = (if is_arr id then 1 else 0).
+Proof. intros id. split; [apply tie_unpacked_size|split; [apply tie_packed_size|apply tie_is_arr]]. Qed.
+Print Assumptions C09_type_table_is_the_source.
 
 Theorem C09_unknown_encoding_id : forall swp cap e vt rest,
   e <> SBDF_PLAINARRAYENCODINGTYPEID -> e <> SBDF_RUNLENGTHENCODINGTYPEID -> e <> SBDF_BITARRAYENCODINGTYPEID ->
